@@ -532,10 +532,10 @@ def _dict_array_comp(data):
 
         # Get arrays back.
         if '__array' in key:
-            arraytype = key.split('__')[-1]
-            dtype = getattr(np, arraytype[6:])
+            ind = key.rindex('__array-')
+            dtype = getattr(np, key[ind+8:])
             value = np.asarray(value, dtype=dtype, order='F')
-            key = key.replace(key[-len(arraytype)-2:], '')
+            key = key[:ind]
 
         # Compose complex numbers.
         if '__complex' in key:
